@@ -768,9 +768,9 @@ class SparseArray:
                         return rows[m]
                     elif md == 1:
                         if misbool:
-                            return SparseArray.from_rows([rows[i] for i, j in enumerate(m) if j])
+                            return SparseArray.from_rows([rows[i].copy() for i, j in enumerate(m) if j])
                         else:
-                            return SparseArray.from_rows([rows[i] for i in m])
+                            return SparseArray.from_rows([rows[i].copy() for i in m])
                     else:
                         raise IndexError(f'row index can be at most 1-d, not {md}-d')
                 elif md == 0:
@@ -814,11 +814,11 @@ class SparseArray:
             ndim, has_bool = get_array_properties(index)
             if has_bool:
                 if ndim == 1: 
-                    return SparseArray.from_rows([rows[i] for i, j in enumerate(index) if j])
+                    return SparseArray.from_rows([rows[i].copy() for i, j in enumerate(index) if j])
                 else:
                     return self[index.nonzero() if hasattr(index, 'nonzero') else np.nonzero(index)]
             elif ndim == 1:
-                return SparseArray.from_rows([rows[i] for i in index])
+                return SparseArray.from_rows([rows[i].copy() for i in index])
             elif ndim > 1:
                 raise IndexError('must use tuple for multidimensional indexing')
             elif index == open_slice:
